@@ -7,6 +7,7 @@ From Coq Require Import NArith List.
 Import ListNotations.
 From CXV Require Import Gen.Blocks Parse.BlocksSM Parse.BlocksSpec Parse.BlocksThms.
 From CXV Require Gen.PinsC03.
+From CXV Require Import Gen.ParserTables Parse.Balanced Parse.Specs Parse.ClassEnum.
 From CXV Require Import Gen.TokTy Parse.Declarator Parse.DeclSpec Parse.DeclThms Parse.BaseClause Parse.EnumList Parse.Specs Parse.Init Parse.Members Parse.MethodTail.
 Open Scope N_scope.
 
@@ -67,7 +68,49 @@ Theorem class_head_decodes_partial : forall default vs ws rest,
   = DOk (existsb (fun f => f) vs, existsb negb vs, map (resolve default) ws, rest).
 Proof. exact class_head_roundtrip. Qed.
 
-(* the functions the hand-written models above mirror (_parse_class_decl_base_clause, _parse_method_end, _discard_ctor_initializer, _parse_field and _parse_bitfield) are, token for
+(* What follows an elaborated type (`struct S`, `enum class E`, ...) decides the
+   kind of the member or declaration: ';' makes it a forward declaration (or,
+   behind `friend`, a friend declaration -- plain `enum` included); one of
+   ':' 'final' 'explicit' '{' starts a class or enum definition; anything else
+   leaves the stream untouched for the variable / function parser.  The rules
+   that reject: `enum E;`, a template header on an enum, `typedef struct S;`,
+   `friend struct S { ... }`, and specifiers where they are not allowed. *)
+Theorem forward_declaration_recognised : forall key m template rest,
+  key <> [] -> validate false false m = true ->
+  key_plain_enum key = false -> (template = true -> key_is_enum key = false) ->
+  class_enum key m template false false (ktok SEMI :: rest) = DOk (CEForward, rest).
+Proof. exact forward_decl_recognised. Qed.
+
+Theorem friend_type_declaration_recognised : forall key m rest,
+  key <> [] -> validate false false m = true ->
+  class_enum key m false false true (ktok SEMI :: rest) = DOk (CEFriend, rest).
+Proof. exact friend_type_recognised. Qed.
+
+Theorem forward_declaration_rules : forall key m template is_typedef is_friend rest,
+  (is_typedef = true \/ validate false false m = false \/ key = [] \/ (key_plain_enum key = true /\ is_friend = false)
+   \/ (template = true /\ key_is_enum key = true)) ->
+  exists e, class_enum key m template is_typedef is_friend (ktok SEMI :: rest) = DErr e.
+Proof. exact forward_decl_rules. Qed.
+
+Theorem definition_dispatched_by_class_key : forall key m template is_typedef s rest,
+  is SEMI s = false -> memN (kty s) class_enum_stage2 = true ->
+  validate (negb is_typedef) false m = true ->
+  class_enum key m template is_typedef false (s :: rest) =
+    if key_is_class key then DOk (CEClass s, rest) else if template then DErr 1 else DOk (CEEnum s, rest).
+Proof. exact definition_dispatch. Qed.
+
+Theorem definition_rules_enforced : forall key m template is_typedef is_friend s rest,
+  is SEMI s = false -> memN (kty s) class_enum_stage2 = true ->
+  (is_friend = true \/ validate (negb is_typedef) false m = false) ->
+  exists e, class_enum key m template is_typedef is_friend (s :: rest) = DErr e.
+Proof. exact definition_rules. Qed.
+
+Theorem other_declarations_untouched : forall key m template is_typedef is_friend s rest,
+  is SEMI s = false -> memN (kty s) class_enum_stage2 = false ->
+  class_enum key m template is_typedef is_friend (s :: rest) = DOk (CENone, s :: rest).
+Proof. exact otherwise_untouched. Qed.
+
+(* the functions the hand-written models above mirror (_parse_class_decl, _parse_class_decl_base_clause, _maybe_parse_class_enum_decl, _parse_method_end, _discard_ctor_initializer, _parse_field and _parse_bitfield) are, token for
    token of their syntax trees, the ones the models were written against: the
    translator recomputes the digests from the live code and produces Gen/PinsC03.v
    only when they match *)
@@ -97,4 +140,10 @@ Example c03_mtail_run :
                     mend_toks (MeCtor [mkCI [mkTk T_NAME 7] false [mkTk 3 9] false; mkCI [mkTk T_NAME 8] true [] true] [mkTk T_NAME 5]) ++ [ktok SEMI])
   = DOk (mkMT true false true false 0 None (Some []) false false false true, [ktok SEMI]).
 Proof. vm_compute. reflexivity. Qed.
+Print Assumptions forward_declaration_recognised.
+Print Assumptions friend_type_declaration_recognised.
+Print Assumptions forward_declaration_rules.
+Print Assumptions definition_dispatched_by_class_key.
+Print Assumptions definition_rules_enforced.
+Print Assumptions other_declarations_untouched.
 Print Assumptions modelled_functions_are_the_pinned_ones.
